@@ -261,5 +261,12 @@ Lemma collect_sources_pinned :
   [("collect", "8d67a21b642c486581fdbbfc13f1a6945f459e0a65ac95156d1fbf8cc030eca0");
    ("collect_items", "06df9151db04174e0a5908c62c0195a644c9bd90f3572aed5a89e782e720f095");
    ("duplicate", "b9e8f72201157bb26ff8dcffc626f702bba61e94a9b101ad257a909e7a5ae835");
-   ("write_items", "06592b49a795b32e836eec76555a677f4c31c3afde6ba2539deafbb3856a4849")].
+   ("write_items", "06592b49a795b32e836eec76555a677f4c31c3afde6ba2539deafbb3856a4849");
+   ("write_split_mod", "072b3c1248efcec67854b51bd050303c086af5e1d71f438ff951611166573271");
+   ("generate_unique_name", "c451acab04afe72a7f9dd7b8c80c6a104b96f53ef1d59ee0a2cd575c3fe9c1cd")].
 Proof. vm_compute. reflexivity. Qed.
+
+(* split-mode file naming as Pipeline.split_items models it: names assigned in item order (a Vec), the set records the name returned,
+   the helper does not touch the set, no hash-ordered iteration *)
+Lemma split_naming_as_modelled : forallb (fun f : String.string * bool => snd f) split_naming_facts = true /\ List.length split_naming_facts = 4.
+Proof. split; vm_compute; reflexivity. Qed.
